@@ -374,10 +374,52 @@ def area_cache(rng, z, n_cases):
     return "\n\n".join(defs), exprs, exp
 
 
-AREAS = {"History": area_history, "Registry": area_registry, "Cache": area_cache}
+def area_dns(rng, z, n_cases):
+    import math
+
+    class Msg:
+        def __init__(self, a):
+            self._a = a
+
+        def answers(self):
+            return self._a
+
+    D = "GenFn.Dns.DNSRecord"
+    defs, exprs, exp = [], [], []
+    for ci in range(n_cases):
+        rs = [rnd_rec(rng) for _ in range(4)]
+        pr = [rec_py(d, z) for d in rs]
+        out = []
+        L = ["def dnsCase%d : String := Id.run do" % ci, "  let rs : List Rec := [%s]" % ", ".join(rec_lean(d) for d in rs), "  let mut out : List String := []"]
+        for _ in range(6):
+            i, j = rng.randrange(4), rng.randrange(4)
+            r = pr[i]
+            base = int(r.created) + rng.choice([250, 500, 1000]) * int(r.ttl)
+            now = max(0, base + rng.choice([-1001, -1000, -999, -1, 0, 1, 999, 1000, 1001]))
+            pct = rng.choice([0, 50, 75, 80, 85, 100])
+            vals = [int(r.get_expiration_time(pct)), int(math.floor(r.get_remaining_ttl(float(now)))), r.is_expired(float(now)), r.is_stale(float(now)),
+                    r.is_recent(float(now)), r._suppressed_by_answer(pr[j]), r.suppressed_by(Msg([pr[k] for k in range(4) if k != i]))]
+            out.append(",".join(("T" if v else "F") if isinstance(v, bool) else str(v) for v in vals))
+            others = ", ".join("rs[%d]!" % k for k in range(4) if k != i)
+            L.append("  out := out ++ [toString (%s.get_expiration_time rs[%d]! %d) ++ \",\" ++ toString (%s.get_remaining_ttl rs[%d]! %d) ++ \",\" ++ "
+                     "showB (%s.is_expired rs[%d]! %d) ++ \",\" ++ showB (%s.is_stale rs[%d]! %d) ++ \",\" ++ showB (%s.is_recent rs[%d]! %d) ++ \",\" ++ "
+                     "showB (%s.suppressed_by_answer L rs[%d]! rs[%d]!) ++ \",\" ++ showB (%s.suppressed_by L rs[%d]! [%s])]"
+                     % (D, i, pct, D, i, now, D, i, now, D, i, now, D, i, now, D, i, j, D, i, others))
+        L.append("  return \" \".intercalate out")
+        exp.append(" ".join(out))
+        defs.append("\n".join(L))
+        exprs.append("dnsCase%d" % ci)
+    return "\n\n".join(defs), exprs, exp
 
 
-def emit(repo):
+AREAS = {"History": area_history, "Registry": area_registry, "Cache": area_cache, "Dns": area_dns}
+
+
+AREA_SOURCES = {"History": ["_history.py", "_dns.py"], "Registry": ["_services/registry.py", "_services/info.py"], "Cache": ["_cache.py", "_dns.py"],
+                "Dns": ["_dns.py"]}
+
+
+def emit(repo, areas):
     sys.path.insert(0, str(pathlib.Path(repo) / "src"))
     os.environ["VERIF_REPO"] = str(repo)
     import zeroconf  # noqa: F401
@@ -387,48 +429,55 @@ def emit(repo):
     import zeroconf._services.registry
 
     z = zeroconf
-    rng = random.Random(20260925)
     gen_dir = ROOT / "lean" / "Zc" / "GenFn"
-    imports, defs, exprs, expected = [], [], [], []
+    imports, defs, exprs, expected, owner = [], [], [], [], []
     for area, f in AREAS.items():
-        if not (gen_dir / (area + ".lean")).exists():
+        if area not in areas or not (gen_dir / (area + ".lean")).exists():
             continue
-        d, e, x = f(rng, z, int(os.environ.get("FN_SELFTEST_CASES", "120")))
+        rng = random.Random("20260925-" + area)
+        d, e, x = f(rng, z, int(os.environ.get("FN_SELFTEST_CASES", "60")))
         imports.append("import Zc.GenFn.%s" % area)
         defs.append(d)
         exprs += e
         expected += x
+        owner += [area] * len(e)
     lean = "\n".join(imports) + "\nimport Zc.Py.Model\nimport Zc.Model.Registry\n" + PRELUDE + "\n" + "\n\n".join(defs) + "\n\n" + \
         "\n".join('#eval IO.println ("=== " ++ %s)' % e for e in exprs) + "\n"
-    json.dump({"lean": lean, "expected": expected}, sys.stdout)
+    json.dump({"lean": lean, "expected": expected, "owner": owner}, sys.stdout)
 
 
-def run(lean_dir, repo):
-    """-> (ok, message, number of compared call sequences)"""
-    lean_dir = pathlib.Path(lean_dir)
+def area_key(lean_dir, repo, area):
     h = hashlib.sha1()
-    for p in sorted((lean_dir / "Zc" / "GenFn").glob("*.lean")) + sorted((lean_dir / "Zc" / "Py").glob("*.lean")):
-        h.update(p.read_bytes())
+    for q in [lean_dir / "Zc" / "GenFn" / (area + ".lean")] + sorted((lean_dir / "Zc" / "Py").glob("*.lean")):
+        h.update(q.read_bytes())
     src = pathlib.Path(repo) / "src" / "zeroconf"
-    for rel in ("_history.py", "_cache.py", "_dns.py", "_services/registry.py", "_services/info.py", "_handlers/multicast_outgoing_queue.py"):
+    for rel in AREA_SOURCES.get(area, []):
         try:
             h.update((src / rel).read_bytes())
         except OSError:
             pass
     h.update(pathlib.Path(__file__).read_bytes())
-    key = h.hexdigest()
+    return h.hexdigest()
+
+
+def run(lean_dir, repo):
+    """-> (ok, message, number of compared call sequences); results are cached per area by content hash"""
+    lean_dir = pathlib.Path(lean_dir)
     okfile = lean_dir / ".fn_selftest.ok"
-    if okfile.exists():
-        try:
-            k, n = okfile.read_text().split()
-            if k == key:
-                return True, "cached", int(n)
-        except ValueError:
-            pass
+    try:
+        cache = json.loads(okfile.read_text())
+    except (OSError, ValueError):
+        cache = {}
+    areas = [a for a in AREAS if (lean_dir / "Zc" / "GenFn" / (a + ".lean")).exists()]
+    keys = {a: area_key(lean_dir, repo, a) for a in areas}
+    stale = [a for a in areas if cache.get(a, {}).get("key") != keys[a]]
+    total = sum(cache[a]["n"] for a in areas if a not in stale)
+    if not stale:
+        return True, "cached", total
     env = dict(os.environ, PYTHONDONTWRITEBYTECODE="1")
     try:
-        p = subprocess.run([sys.executable, str(pathlib.Path(__file__).resolve()), "--emit", "--repo", str(repo)], stdout=subprocess.PIPE,
-                           stderr=subprocess.PIPE, timeout=300, env=env)
+        p = subprocess.run([sys.executable, str(pathlib.Path(__file__).resolve()), "--emit", "--repo", str(repo), "--areas", ",".join(stale)],
+                           stdout=subprocess.PIPE, stderr=subprocess.PIPE, timeout=300, env=env)
     except subprocess.TimeoutExpired:
         return False, "the python side of the gen_fn self-test timed out", 0
     if p.returncode != 0:
@@ -436,8 +485,8 @@ def run(lean_dir, repo):
     job = json.loads(p.stdout.decode())
     f = lean_dir / ".fn_selftest.lean"
     f.write_text(job["lean"])
-    mods = sorted("Zc.GenFn." + q.stem for q in (lean_dir / "Zc" / "GenFn").glob("*.lean"))
-    b = subprocess.run(["lake", "build", "Zc.Py.Model"] + mods, cwd=lean_dir, stdout=subprocess.PIPE, stderr=subprocess.STDOUT, timeout=1800)
+    mods = ["Zc.GenFn." + a for a in stale]
+    b = subprocess.run(["lake", "build", "Zc.Py.Model", "Zc.Model.Registry"] + mods, cwd=lean_dir, stdout=subprocess.PIPE, stderr=subprocess.STDOUT, timeout=1800)
     if b.returncode != 0:
         return False, "generated functions do not compile: " + b.stdout.decode(errors="replace")[-600:], 0
     r = subprocess.run(["lake", "env", "lean", f.name], cwd=lean_dir, stdout=subprocess.PIPE, stderr=subprocess.STDOUT, timeout=1800)
@@ -447,13 +496,15 @@ def run(lean_dir, repo):
         return False, "lean evaluation of the gen_fn self-test failed: " + out[-600:], 0
     for i, (g, e) in enumerate(zip(got, job["expected"])):
         if g != e:
-            return False, "generated function and real code disagree on self-test case %d: lean=%r python=%r" % (i, g[:300], e[:300]), i
-    okfile.write_text("%s %d" % (key, len(got)))
-    return True, "ok", len(got)
+            return False, "generated function and real code disagree on %s self-test case %d: lean=%r python=%r" % (job["owner"][i], i, g[:300], e[:300]), i
+    for a in stale:
+        cache[a] = {"key": keys[a], "n": job["owner"].count(a)}
+    okfile.write_text(json.dumps(cache))
+    return True, "ok", total + len(got)
 
 
 if __name__ == "__main__":
     if "--emit" in sys.argv:
-        emit(sys.argv[sys.argv.index("--repo") + 1])
+        emit(sys.argv[sys.argv.index("--repo") + 1], sys.argv[sys.argv.index("--areas") + 1].split(",") if "--areas" in sys.argv else list(AREAS))
     else:
         print(run(ROOT / "lean", os.environ.get("VERIF_REPO", "/repo")))
